@@ -8,6 +8,7 @@ package astdiff
 // non-nil pointer or interface, nothing below comments, object links and scopes; the result is a fresh,
 // well-formed tree (the shape invariant the walkers rely on).
 //@ func snapshot(v, cmap) (val)
+//@   requires [C08] a-valid-value: kind(v) != 0
 //@   requires typing: snapEnvOK()
 //@   unfold snapEnvOK() == snapTyping()
 //@   requires typing: cmap == nil || cmapTyped(cmap)
@@ -33,6 +34,7 @@ package astdiff
 
 // Before: the snapshot of the unchanged file, with the comments attached to its nodes (C17).
 //@ func Before(n, comments) (s)
+//@   requires [C08] a-node: n != nil
 //@   requires typing: snapEnvOK()
 //@   requires typing: comments == nil || cmapTyped(comments)
 //@   at call astdiff.snapshot assert [C17] the-file-as-it-is-with-its-comment-map: arg0 == rvOf(n) && arg1 == comments
